@@ -13,6 +13,7 @@ pub mod c09;
 pub mod c10;
 pub mod c11;
 pub mod c12;
+pub mod c14;
 pub mod c15;
 pub mod c16;
 pub mod c17;
@@ -59,6 +60,7 @@ pub fn dispatch(id: &str, tier: Tier, replay: Option<&str>) {
         "c10" => c10::run(tier, replay),
         "c11" => c11::run(tier, replay),
         "c12" => c12::run(tier, replay),
+        "c14" => c14::run(tier, replay),
         "c15" => c15::run(tier, replay),
         "c16" => c16::run(tier, replay),
         "c17" => c17::run(tier, replay),
